@@ -86,6 +86,8 @@ void rt_name (const void *p, size_t n, const char *name);   /* give an address r
 const char *rt_addr_name (const void *p, char *buf, size_t n);
 const char *rt_fn_name (const void *pc, char *buf, size_t n);
 void rt_track_stack_frames (int on);       /* O-mem on dead stack bytes */
+void rt_dead_mark (const void *p, size_t n, int owner, const char *what);  /* object whose owner's call has returned */
+void rt_dead_clear (int owner);
 /* ---- oracles ---- */
 void rt_violation (const char *oracle, const char *fmt, ...);
 const struct rt_viol *rt_first_violation (void);   /* NULL if none since reset */
@@ -107,6 +109,10 @@ extern void (*rt_on_access) (void *addr, int size, int is_write, int tid);
 /* step granularity */
 extern int rt_sem_single_step;             /* 1: semaphore calls are single steps (L1/L2); 0: park inside (Sem) */
 extern int rt_binary_sem;                  /* 1: V saturates at 1 (binary semaphore flavour) */
+extern int rt_exit_is_step;                /* 1: the thread-exit waiter destructor is a separate step */
+void *rt_tls_waiter (int t);               /* fiber t's cached nsync waiter (or NULL) */
+int rt_stack_owner (const void *p);        /* fiber whose stack contains p, or -1 */
+int rt_blocked_woken (int t);
 /* logging */
 extern FILE *rt_log;                       /* if non-NULL each granted step is appended as one JSON line by the harness */
 const char *rt_kind_name (int kind);
